@@ -7,7 +7,7 @@ export CARGO_NET_OFFLINE=true CARGO_TARGET_DIR=$WT/target
 mkdir -p $OUT
 cd $WT || exit 2
 git checkout -q -- . 
-DEMO_CMD=$(python3 -c "import json,re;print(re.split(r'\s{2,}\(', json.load(open('$D/meta.json'))['demo_cmd'])[0])")
+DEMO_CMD=$(python3 -c "import json,re;print(re.sub(r'git apply \S+ *(&&|;) *', '', re.split(r'\s{2,}\(', json.load(open('$D/meta.json'))['demo_cmd'])[0]))")
 echo "demo_cmd: $DEMO_CMD" > $OUT/verify.log
 run_demo() { ( cd $WT && bash -c "$DEMO_CMD" ) > $OUT/demo_$1.log 2>&1; rc=$?
   if grep -q "test result: FAILED\|panicked at\|error\[" $OUT/demo_$1.log; then echo FAIL; elif grep -q "test result: ok" $OUT/demo_$1.log; then echo PASS; else echo "rc=$rc"; fi; }
